@@ -45,5 +45,10 @@ def main():
         return r.returncode
     finally:
         shutil.rmtree(d, ignore_errors=True)
+        # point the engine's path dependencies back at the real repository
+        sys.path.insert(0, os.path.join(os.path.dirname(os.path.dirname(os.path.abspath(__file__))), "lib"))
+        os.environ.pop("VERIF_REPO", None)
+        import vlib
+        vlib.render_engine()
 
 sys.exit(main())
